@@ -1,5 +1,5 @@
 #!/venv/bin/python
-"""Regenerate reference/known_functions.json: the qualified names of the functions of the analysed packages at the commit the
+"""Regenerate reference/known_functions.json: the qualified names (with a rename-invariant structural fingerprint each) of the functions of the analysed packages at the commit the
 rules were confirmed against.  The list is NOT part of any verdict: the abstract evaluator uses it only to decide how to look at
 a call - a function that is not in the list (a helper introduced by a later change) is always followed into, so that moving
 statements into a new helper shows the rules the same terms and effects as before.  usage: make_known_functions.py [repo]"""
@@ -7,20 +7,20 @@ import json, sys
 from pathlib import Path
 
 sys.path.insert(0, str(Path(__file__).resolve().parent.parent))
-from sa.index import Repo  # noqa: E402
+from sa.index import Repo, fingerprint  # noqa: E402
 
 
 def main():
     repo = Repo(sys.argv[1] if len(sys.argv) > 1 else "/repo")
-    names = set()
+    names = {}
     for m in repo.modules.values():
         for f in m.functions.values():
-            names.add(f.fq)
+            names[f.fq] = dict(zip(("fp", "attrs"), fingerprint(f.node, with_attrs=True)), params=f.params())
         for c in m.classes.values():
             for f in c.methods.values():
-                names.add(f.fq)
+                names[f.fq] = dict(zip(("fp", "attrs"), fingerprint(f.node, with_attrs=True)), params=f.params())
     out = Path(__file__).resolve().parent.parent / "reference" / "known_functions.json"
-    out.write_text(json.dumps(sorted(names), indent=0) + "\n")
+    out.write_text(json.dumps(dict(sorted(names.items())), indent=0) + "\n")
     print(f"{len(names)} functions -> {out}")
 
 
